@@ -190,6 +190,7 @@ func (r *Result) Finish(c *Ctx, verifDir string, seed int, wall float64, meta Pr
 		}
 		return nil
 	}
+	r.applyExceptions()
 	var nHold, nViol, nUndec, nExc, nKnown int
 	var viols []Obligation
 	var knownMatched []string
@@ -326,4 +327,17 @@ type PropMeta struct {
 	Explanation   string
 	DoesNotDecide string
 	Rules         map[string]string
+}
+
+// applyExceptions turns reported instances listed in the frozen exception table into excepted ones.
+func (r *Result) applyExceptions() {
+	for i := range r.Obls {
+		o := &r.Obls[i]
+		if o.Status == Violated {
+			if reason, ok := exceptionFor(r.Prop, o.Rule, o.Construct); ok {
+				o.Status = Excepted
+				o.Detail = "exception: " + reason + " [" + o.Detail + "]"
+			}
+		}
+	}
 }
